@@ -92,7 +92,7 @@ func corpusC14() []*Case {
 		c := &Case{Stream: "corpus", Note: note, Archs: archs}
 		for _, ww := range worlds {
 			for i := range archs {
-				c.Runs = append(c.Runs, Run{Arch: i, World: ww, Multi: true})
+				c.Runs = append(c.Runs, Run{Arch: i, World: ww, Multi: true, Plain: true})
 			}
 		}
 		return c
